@@ -218,8 +218,9 @@ def run(ctx):
                "result only when it holds for the original model")
     ctx.assume("declared output types may be refined by the optimizer (a symbolic dimension may become a value); element type, rank and declared "
                "dimension values must be kept; declared input types must be identical")
-    ctx.check_props()
     info = regenerate(ctx)
+    ctx.check_props()
+    ctx.build(["Opt/FoldInst.vo"])          # the executable instance used by the correspondence
     rng = ctx.rng
     rng.random()           # decorrelate from C03 at the same seed
     quick = ctx.tier == "quick"
